@@ -5,3 +5,4 @@ pub mod ref_select;
 pub mod ref_route;
 pub mod ref_sip;
 pub mod sdp;
+pub mod ref_reorder;
